@@ -146,6 +146,10 @@ pub struct FaultPlan {
     /// With this probability a datagram gets an extra delay of up to `reorder_extra`.
     pub reorder: f64,
     pub reorder_extra: Us,
+    /// Stragglers: with this probability a datagram from a real socket is held back for a time
+    /// drawn from the range (hundreds of milliseconds to seconds: it arrives after the sender's
+    /// retransmission timer has fired, next to the retransmission).
+    pub straggler: Option<(f64, Us, Us)>,
     /// Fair-lossy budget: no identity is dropped by random loss more than this many times.
     pub budget_per_identity: Option<u32>,
     dropped_identities: BTreeMap<PktIdentity, u32>,
@@ -192,6 +196,7 @@ impl FaultPlan {
             dup: 0.0,
             reorder: 0.0,
             reorder_extra: 0,
+            straggler: None,
             budget_per_identity: None,
             dropped_identities: BTreeMap::new(),
             protect_syn: true,
@@ -236,8 +241,8 @@ impl FaultPlan {
 
     pub fn describe(&self) -> String {
         format!(
-            "latency={:?}us loss={} burst={:?} dup={} reorder={}/{}us budget={:?} path_mtu={:?}/{:?} emsgsize={:?} pending={}/{:?} drop_idx={:?} dup_idx={:?} delay_idx={:?} cut_idx={:?} cut_t={:?} vanished={:?} filter={}",
-            self.latency, self.loss, self.burst, self.dup, self.reorder, self.reorder_extra,
+            "latency={:?}us loss={} burst={:?} dup={} reorder={}/{}us straggler={:?} budget={:?} path_mtu={:?}/{:?} emsgsize={:?} pending={}/{:?} drop_idx={:?} dup_idx={:?} delay_idx={:?} cut_idx={:?} cut_t={:?} vanished={:?} filter={}",
+            self.latency, self.loss, self.burst, self.dup, self.reorder, self.reorder_extra, self.straggler,
             self.budget_per_identity, self.path_mtu, self.path_mtu_by_src, self.emsgsize_mtu_by_src,
             self.pending_prob, self.pending_for, self.drop_indices, self.dup_indices,
             self.delay_indices, self.cut_at_index, self.cut_at_time, self.vanished, self.filter.is_some()
@@ -368,6 +373,11 @@ impl FaultPlan {
             if self.reorder > 0.0 && self.rng.chance(self.reorder) {
                 let extra = (self.rng.below(self.reorder_extra / MS + 1) + 1) * MS;
                 delays[0] += extra;
+            }
+            if let Some((p, lo, hi)) = self.straggler {
+                if !is_syn && !in_handshake && self.rng.chance(p) {
+                    delays[0] += (lo / MS + self.rng.below((hi - lo) / MS + 1)) * MS;
+                }
             }
         }
         Fate::Deliver(delays)
@@ -993,6 +1003,7 @@ where
                             | V::VsockDropped { id, .. }
                             | V::RxData { id, .. }
                             | V::RetransmitTimerExpired { id }
+                            | V::MtuProbeExpired { id, .. }
                             | V::Segmented { id, .. } => {
                                 let n = uid_map.len() as u64 + 1;
                                 id.uid = *uid_map.entry(id.uid).or_insert(n);
